@@ -1,5 +1,7 @@
 """C13 — library modules behave like the same code written in the main file."""
 import copy
+import json
+import re
 
 from .. import core, gen, impl, progen, pipeline, diffrun
 
@@ -296,6 +298,27 @@ def main(tier, seed):
             run.violation("library program: " + what,
                           {"kind": "label_clash", "clash": "module_function_vs_underscore_name" if "lib.f0" in what else "other",
                            "split": {"": mainsrc, "lib": lib}, "code": wr_["code"]})
+    # compile-time functions of the same name in the main file and in libraries: each module's calls are answered by
+    # its own function, exactly as in the merged single file where the library's function carries the module prefix
+    split_c = {"": "from library import lib\nfrom library import other as o\n@constexpr\ndef scale(x):\n    return x * 2\nd0.Setting = scale(5)\nlib.show()\no.show()\nwhile True:\n    yield_()\n",
+               "lib": "@constexpr\ndef scale(x):\n    return x * 3\ndef show():\n    d1.Setting = scale(5)\n",
+               "other": "@constexpr\ndef scale(x):\n    return x + 100\ndef show():\n    d2.Setting = scale(5)\n"}
+    merged_c = ("@constexpr\ndef scale(x):\n    return x * 2\n@constexpr\ndef lib_scale(x):\n    return x * 3\n@constexpr\ndef other_scale(x):\n    return x + 100\n"
+                "def lib_show():\n    d1.Setting = lib_scale(5)\ndef other_show():\n    d2.Setting = other_scale(5)\n"
+                "d0.Setting = scale(5)\nlib_show()\nother_show()\nwhile True:\n    yield_()\n")
+    for vn in ("default", "noinline"):
+        a_ = impl.compile_one((split_c, pipeline.VECTORS[vn]))
+        b_ = impl.compile_one((merged_c, pipeline.VECTORS[vn]))
+        run.count("evaluations")
+        if "Timeout during evaluating constexpr" in json.dumps([a_.get("error"), b_.get("error")], default=str):
+            run.count("inconclusive_constexpr_timeouts")
+            continue
+        def stores(r_):
+            return sorted(re.findall(r"s (d\d) Setting (\S+)", r_.get("code", "")))
+        if "code" not in a_ or "code" not in b_ or stores(a_) != stores(b_) or stores(a_) != [("d0", "10"), ("d1", "15"), ("d2", "105")]:
+            run.violation("compile-time functions of the same name in different modules: the split program does not store what the merged program stores",
+                          {"kind": "constexpr_namespaces", "option_set": vn, "split": split_c, "merged": merged_c,
+                           "split_result": str(a_.get("code", a_.get("error")))[:800], "merged_result": str(b_.get("code", b_.get("error")))[:800]})
     for f in run.findings.open_for("C13"):
         if f["id"] not in run.known_hits:
             run.note(f"known finding {f['id']} did not reproduce in this run")
